@@ -8,7 +8,7 @@
    ioapi_base.applyAlongDimensions on the data variables, its VGLVLS recomputation (impl_apply on a
    (lay, nv) bounds variable) and the string forms reduce_dim(f, 'dim,func') = impl_apply f [(dim, func)],
    convolve_dim(f, 'dim,mode,w...') = impl_apply f [(dim, FConv mode w)]. *)
-From PNC Require Import Base.Util Base.NdApply Model.Apply Proofs.NdApplyProofs Proofs.ApplyProofs Proofs.ApplyIntProofs.
+From PNC Require Import Base.Util Base.NdApply Model.Apply Proofs.NdApplyProofs Proofs.ApplyProofs Proofs.ApplyIntProofs Proofs.ApplyCompleteProofs Gen.C03Src.
 Require Import QArith Permutation.
 Local Close Scope Q_scope.
 Local Open Scope nat_scope.
@@ -165,3 +165,53 @@ Example C03_any_order_inhabited :
   to_flat (apply_axes (ma_red Z.add) None [0; 1] a) = [Some 7%Z]
   /\ to_flat (apply_axes (ma_red Z.add) None [1; 0] a) = [Some 7%Z].
 Proof. vm_compute. split; reflexivity. Qed.
+
+(* (10) tie T.  Gen/C03Src.v src_apply is re-read from core/_files.py applyAlongDimensions,
+   cmaqfiles/_ioapi.py ioapi_base.applyAlongDimensions and core/_functions.py reduce_dim / convolve_dim on
+   every run: the statements the model transcribes (enumerate, REVERSED axis loop, name test, keepdims
+   reducer call, apply_along_axis with the opts dictionary, result dtype, assignment, the three new-length
+   probes, 1-D coordinate rule, dimension copy, the IOAPI VGLVLS recomputation, the string forms) are the
+   ones in the source, and the variable loop computed from the source record is the model's. *)
+Theorem C03_source_is_model :
+  src_apply = model_apply /\ forall dfs v, generic_vals src_apply dfs v = impl_vals dfs v.
+Proof. split; [vm_compute; reflexivity | intros; reflexivity]. Qed.
+Print Assumptions C03_source_is_model.
+
+(* (11) An in-domain call completes: for every well-formed file (each variable has the shape of its
+   dimensions, any rank, any number of variables) and every set of named dimensions that exist, each
+   with a usable function (lane_ok), applyAlongDimensions raises nothing: the length probes succeed
+   and every variable's result has exactly the shape of the new dimensions, so no assignment fails.
+   Named reducers are always usable; a length-uniform callable (diff, sub-sampling are proved uniform)
+   is usable when the coordinate lane has the dimension's length. *)
+Theorem C03_completes : forall f dfs,
+  wf_file f = true -> NoDup (map fst dfs) ->
+  (forall d fd, In (d, fd) dfs -> exists n, lookup d (fdims f) = Some n /\ lane_ok f d n fd) ->
+  exists r, impl_apply f dfs = Ok r.
+Proof. exact apply_completes. Qed.
+Print Assumptions C03_completes.
+
+Theorem C03_reducers_usable : forall f d n fd,
+  In fd [RSum; RProd; RMin; RMax; RMean] -> lane_ok f d n fd.
+Proof. exact lane_ok_reducer. Qed.
+Print Assumptions C03_reducers_usable.
+
+Theorem C03_callables_usable : forall f d n fd,
+  In fd [FDiff] \/ (exists s, fd = FSub (S s)) \/ (exists m k, fd = FConv m k) ->
+  uniform (run fd) -> length (coord_lane f d n) = n -> lane_ok f d n fd.
+Proof. exact lane_ok_callable. Qed.
+Print Assumptions C03_callables_usable.
+
+Theorem C03_diff_sub_uniform : uniform (run FDiff) /\ forall s, uniform (run (FSub s)).
+Proof. exact (conj uniform_diff uniform_sub). Qed.
+Print Assumptions C03_diff_sub_uniform.
+
+(* non-vacuity of (11): ex_file with 'sum' on dimension 1 and numpy.diff on dimension 0 *)
+Example C03_completes_inhabited :
+  wf_file ex_file = true /\ NoDup (map fst [(1, RSum); (0, FDiff)])
+  /\ (forall d fd, In (d, fd) [(1, RSum); (0, FDiff)] -> exists n, lookup d (fdims ex_file) = Some n /\ lane_ok ex_file d n fd).
+Proof.
+  split; [vm_compute; reflexivity|]. split; [repeat constructor; simpl; intuition discriminate|].
+  intros d fd [E|[E|[]]]; injection E as <- <-.
+  - exists 3. split; [reflexivity|]. apply lane_ok_reducer. simpl; auto.
+  - exists 2. split; [reflexivity|]. apply lane_ok_callable; [left; simpl; auto | apply uniform_diff | vm_compute; reflexivity].
+Qed.
